@@ -666,7 +666,16 @@ func (s *sim) Next(rng *simcore.RNG) simcore.Op {
 		if n < 0 {
 			n = 0
 		}
-		return simcore.Op{"a": "send", "c": ci, "k": idle[rng.Intn(len(idle))], "ch": ch, "n": n, "try": rng.Bool(0.5), "seed": rng.Intn(1 << 30)}
+		try := rng.Bool(0.5)
+		if s.mode == "rl" || s.mode == "rl1" {
+			// A Send that blocks on a full queue is released by sendRoutine itself; whether the
+			// wake-up token it then posts survives sendRoutine's own re-arm is a scheduler race, and
+			// under a rate limit a surplus token costs one more 100 ms sample (observable flush
+			// timing). Rate-limited runs therefore use TrySend only; blocking Sends are exercised
+			// in the bp/stall modes where a surplus token has no observable effect.
+			try = true
+		}
+		return simcore.Op{"a": "send", "c": ci, "k": idle[rng.Intn(len(idle))], "ch": ch, "n": n, "try": try, "seed": rng.Intn(1 << 30)}
 	case 1:
 		return s.genDeliver(rng, deliv[rng.Intn(len(deliv))])
 	case 2:
@@ -708,7 +717,9 @@ func (s *sim) genRaw(rng *simcore.RNG) simcore.Op {
 			op["cnt"] = rcap/(s.payload) + rng.Range(0, 3)
 		}
 	case "unk":
-		op["id"] = []int{rng.Intn(256), 256 + rng.Intn(256), -1 - rng.Intn(200), 1 << 30}[rng.Intn(4)]
+		valid := int(s.c[1].chans[ch].id)
+		// ids that are unknown as int32 but alias a configured channel when cut to one byte
+		op["id"] = []int{rng.Intn(256), 256 + rng.Intn(256), -1 - rng.Intn(200), 1 << 30, 256 + valid, valid - 256, 65536 + valid}[rng.Intn(7)]
 		op["n"] = rng.Range(0, s.payload)
 	case "big":
 		op["n"] = s.payload + rng.Range(1, 2000)
@@ -1551,13 +1562,14 @@ func (s *sim) Finish() {
 	if sig != "" {
 		e.Fail("C17", sig, "%s", detail)
 	}
+	// Stop closes the connection itself; both routines must be gone now
+	if n, sample := leaked(); n > 0 {
+		e.Fail("C17", "goroutine-wedged", "%d MConnection goroutine(s) still alive 11 s after Stop returned:\n%s", n, sample)
+	}
 	for i := 0; i < 2; i++ {
 		s.c[i].end.Close()
 	}
 	e.Settle()
-	if n, sample := leaked(); n > 0 {
-		e.Fail("C17", "goroutine-wedged", "%d MConnection goroutine(s) still alive after Stop and connection close:\n%s", n, sample)
-	}
 	e.Logf("finish ok")
 }
 
